@@ -576,6 +576,32 @@ theorem C11_roundtrip_canonical (t : Ty) (v : Val) (r : Bytes) (h : wt t v = tru
     unmarshal t (encode Spec.codec t v ++ r) = some (v, r) := by
   rw [← C11_encode_canonical t v h]; exact C11_roundtrip_partial t v r h hq
 
+
+/-- the round trip covers element types of encoded width 0 (`Vec<()>`, `[][0]byte`, structs whose
+    fields are all ignored): `n` units encode to the compact length alone and decode back, whatever
+    follows (in particular nothing) -/
+theorem C11_roundtrip_zero_width (n : Nat) (hn : n < 4294967296) (r : Bytes) :
+    marshal (.seq .unit) (.list (List.replicate n .unit)) = encodeUint n ∧
+    unmarshal (.seq .unit) (marshal (.seq .unit) (.list (List.replicate n .unit)) ++ r)
+      = some (.list (List.replicate n .unit), r) := by
+  constructor
+  · have : ∀ (f : Val → Bytes) k, (∀ v, f v = []) → encList f (List.replicate k .unit) = [] := by
+      intro f k hf; induction k with
+      | zero => rfl
+      | succ k ih => rw [List.replicate_succ, encList, hf, ih]; rfl
+    simp only [marshal, encode, List.length_replicate]
+    rw [this _ n (fun v => by simp [encode])]
+    simp [codec]
+  · apply C11_roundtrip_partial
+    · have h64 : n < maxSeqLen := by rw [maxSeqLen_eq, pow2_64]; omega
+      simp [wt, h64]
+    · simp [leavesOk, okLen, uintOk, hn]
+
+/-- the same for arrays of length 0 and nested slices: a concrete instance -/
+example : (unmarshal (.seq (.seq (.array 0 (.prim .u8))))
+    (marshal (.seq (.seq (.array 0 (.prim .u8)))) (.list [.list [.list [], .list []], .list []]))).isSome
+      = true := by decide
+
 /-- the excluded region is real: 2^32 is a well-typed Go `uint`, its encoding `07 00 00 00 00 01`
     is canonical, and the Go decoder rejects it -/
 theorem C11_roundtrip_counterexample :
